@@ -13,8 +13,8 @@ VARIABLES in, phase, out
 vars == <<in, phase, out>>
 
 \* answer classes of one trusted peer
-Classes == {"valid", "otherHash", "wrongchain", "invalid", "malformed", "unknownStatus", "notfound",
-            "empty", "truncated", "tooMany", "hang", "noStream"}
+Classes == {"valid", "otherHash", "wrongchain", "nochain", "invalid", "malformed", "unknownStatus", "notfound",
+            "empty", "truncated", "tooMany", "hang", "noStream"}     \* nochain: a header that names no chain at all
 \* classes whose answer passes request(): status OK, decodes, Validate, chain id
 Passes == {"valid", "otherHash", "tooMany"}
 \* which header such an answer carries: the requested one, or another valid header of the chain
